@@ -194,6 +194,7 @@ type Run struct {
 	clockT   *Thread
 	clockObj Obj
 	cost     int
+	noBranch int
 	// Locals lets harness-level helpers keep per-run state.
 	Locals map[string]interface{}
 }
@@ -484,7 +485,7 @@ func (r *Run) reschedule(self *Thread) {
 			r.res.Conflicts++
 		}
 		c := 0
-		if len(alts) > 1 {
+		if len(alts) > 1 && r.noBranch == 0 {
 			r.current = self
 			c = r.choose(PointRec{N: len(alts), Kind: 's', RunEnabled: selfEnabled, ClockIdx: clockIdx, ClockDue: clockIdx >= 0 && r.clockDue()})
 			if c < 0 {
@@ -575,7 +576,7 @@ func (r *Run) TouchHB(kind string, objs ...*Obj) {
 // answers as deviations.
 func Choose(n int, fault bool, label string) int {
 	r := Cur()
-	if r == nil || n <= 1 {
+	if r == nil || n <= 1 || r.noBranch > 0 {
 		return 0
 	}
 	k := byte('d')
@@ -883,3 +884,17 @@ func Tick() { ticks++ }
 
 // Ticks returns the number of function entries counted so far.
 func Ticks() uint64 { return ticks }
+
+// NoBranch runs fn with the default schedule only: no choice point is recorded
+// while it executes (used for expensive deterministic setup inside an explored body).
+// Threads started inside keep running under exploration afterwards.
+func NoBranch(fn func()) {
+	r := Cur()
+	if r == nil {
+		fn()
+		return
+	}
+	r.noBranch++
+	defer func() { r.noBranch-- }()
+	fn()
+}
